@@ -49,14 +49,19 @@ CHECKS = {
    ref="7/C18",
    technique="Coq proof of totality with explicit linear fuel bounds (Properties/C18.v) + model-vs-implementation correspondence via extraction"),
  "C19": dict(
-   text="PARTIAL at the term level. Machine-checked in full at the goal and rule level: for every canonical goal (any nesting of "
-        "conjunctions/disjunctions over leaf goals) and every canonical rule, Display yields the canonical text and the parser "
-        "yields the value back, relative to the hypothesis that the leaf parser inverts Display on each leaf text (decidable "
-        "criterion `neutralb` for the tokenizer's part). At the leaf/term level that inversion is proved for 64-bit integers "
-        "only; for atoms, floats, variables, lists, complex terms, built-ins and infix forms it is stated (C19_terms_full) and "
-        "decided on every run by the correspondence check: canonical ASTs are printed by the real Display, parsed by the real "
-        "parser and compared, and the model is compared with both.", ref="7/C19",
-   technique="Coq proof of the goal/rule round trip (Properties/C19.v) + print/parse round trip on the implementation + model-vs-implementation correspondence"),
+   text="Machine-checked: (1) goal and rule level: for every canonical goal (any nesting of conjunctions/disjunctions over leaf "
+        "goals) and every canonical rule, Display yields the canonical text and the parser yields the value back, relative to "
+        "the hypothesis that the leaf parser inverts Display on each leaf text (decidable criterion `neutralb` for the "
+        "tokenizer's part); (2) term level (C19_roundtrip_terms): parse_term (show_term t) = t for every canonical term - atoms "
+        "[a-z][A-Za-z0-9_]*, 64-bit integers, variables $[A-Za-z][A-Za-z0-9_]* and $_, complex terms (functor not a function "
+        "name, text up to the 1000 characters validate_complex allows), lists with and without tail variable, nested without "
+        "bound; `canonicalb` is an executable test implying the class. NOT covered by a theorem: floats (printing/parsing of "
+        "binary64), atoms with spaces or quotes, built-in leaf goals and infix forms - decided on every run by printing "
+        "canonical ASTs with the real Display, parsing with the real parser and comparing, the model compared with both. The "
+        "proof work found where printer and parser disagreed: `[a | $_]` was rejected (repaired, 5e5ae04); a list that is a tail "
+        "variable only prints as `[$T]`; complex terms longer than 1000 characters are rejected (both outside the class).",
+   ref="7/C19",
+   technique="Coq proof of the term, goal and rule round trips (Properties/C19.v) + print/parse round trip on the implementation + model-vs-implementation correspondence"),
  "C20": dict(
    text="Machine-checked for all strings satisfying decidable side conditions (no top-level separator, balanced brackets and "
         "quotes, no arithmetic infix - each a boolean function stated in Properties/C20.v): the text parses to the same term "
